@@ -265,11 +265,48 @@ fn exhaustive_corner(rep: &mut Report) {
     rep.distinct.insert("corner-exhaustive".into());
 }
 
+/// Very long histories: tens of millions of consecutive slides of one object (a lazily normalised
+/// accumulator must never overflow, however long the history), checked after every slide.
+fn marathon(seed: u64, idx: u64, rolls: usize, rep: &mut Report) {
+    let mut rng = Rng::derive(seed, 1717, idx);
+    let n0 = *rng.pick(&[512usize, 2048, 8192, 65536]);
+    let d = *rng.pick(&[Dist::Uniform, Dist::High, Dist::FF]);
+    let init: Vec<u8> = (0..n0).map(|i| draw(&mut rng, d, i)).collect();
+    let ctxv = json!({"seed": seed, "marathon": idx, "window": n0, "dist": format!("{d:?}"), "rolls": rolls});
+    rep.evaluations += 1;
+    let r = guarded(|| {
+        let mut rl = Report::default();
+        let mut st = State::new(&init);
+        for opno in 1..=rolls {
+            let x = draw(&mut rng, d, opno);
+            st.roll(x);
+            let fresh = opno % 4_000_000 == 0 || opno == rolls;
+            let c = ctxv.clone();
+            let before = rl.violations.len();
+            check(&st, fresh, &mut rl, &move || json!({"case": c, "op": "roll", "opno": opno}));
+            if rl.violations.len() > before {
+                break;
+            }
+        }
+        rl
+    });
+    match r {
+        Caught::Ok(rl) => {
+            rep.count("marathon_rolls_checked", rl.counters.get("ops_checked").copied().unwrap_or(0));
+            rep.distinct.insert(format!("marathon|w{n0}|{d:?}"));
+            rep.merge(rl);
+        }
+        Caught::Panicked(m) => rep.violation("C17|panic", json!({"case": ctxv, "panic": m})),
+    }
+}
+
 pub fn run(seed: u64, thorough: bool, cases: Option<u64>) -> Report {
     let n = cases.unwrap_or(if thorough { 5000 } else { 320 });
     let mut rep = par_cases(n, |i, r| one_sequence(seed, i, thorough, r));
     if !crate::util::tiny() {
         exhaustive_corner(&mut rep);
+        let (k, rolls) = if thorough { (8u64, 70_000_000usize) } else { (2u64, 30_000_000usize) };
+        rep.merge(par_cases(k, |i, r| marathon(seed, i, rolls, r)));
     }
     rep
 }
